@@ -37,7 +37,7 @@ RULE = ('random operation sequences (length <= 12 quick / 25 thorough) over pool
         'each applied operation is a case; distinct = (operation, argument class)')
 ASSUMPTIONS = ['objects keep >= 2 conditions and >= 1 RDM', 'condition uids < 100, rdm uids < 1000 (id coding exact)']
 OPS = ['getitem', 'iter', 'subset', 'subsample', 'subset_pattern', 'subsample_pattern', 'reorder', 'sort_by',
-       'append', 'concat', 'copy', 'vectors_matrices', 'from_partials', 'permute', 'dict_roundtrip', 'to_df']
+       'derive_sort', 'append', 'concat', 'copy', 'vectors_matrices', 'from_partials', 'permute', 'dict_roundtrip', 'to_df']
 REQUIRED = ['check:' + o for o in OPS] + ['check:n_cond_from_length', 'sequences_completed', 'invariant_evaluations',
                                          'steps_checked']
 REACH = ['RDMs.__getitem__', 'RDMs.subset', 'RDMs.subsample', 'RDMs.subset_pattern', 'RDMs.subsample_pattern',
@@ -146,7 +146,9 @@ class Shadow:
 
 def fingerprint(obj):
     def dsc(d):
-        return tuple((k, tuple(str(x) for x in v)) for k, v in sorted(d.items()) if k != 'index')
+        # includes the library-managed 'index' descriptors: subset_pattern('index', ...) reads them, so an in-place
+        # operation on one object must not renumber another object's index either
+        return tuple((k, tuple(str(x) for x in v)) for k, v in sorted(d.items()))
     return (obj.dissimilarities.tobytes(), obj.dissimilarities.shape, dsc(obj.rdm_descriptors),
             dsc(obj.pattern_descriptors), obj.n_rdm, obj.n_cond)
 
@@ -339,6 +341,8 @@ def step(run, op):
             if mode == 'list':
                 names = [w.name[c] for c in sh.conds]
                 order = [int(i) for i in rng.permutation(len(names))]
+                if rng.integers(3) == 0:
+                    order = list(range(len(names)))   # already in the requested order (a no-op for the values)
                 target = [names[i] for i in order]
                 obj.sort_by(reindex=reindex, name=gen.pick(rng, [list(target), np.array(target)]))
                 sh.conds = [sh.conds[i] for i in order]
@@ -353,6 +357,35 @@ def step(run, op):
                 ctx.fail(op, dict(sig, what='reindex'), 'index not reset', hist())
                 return False
             touched = (k,)
+        elif op == 'derive_sort':
+            # an in-place sort on a freshly derived (not copied) object that is already in the requested order: the
+            # values do not move, the derived object is re-indexed, and its source must stay exactly as it was --
+            # in particular a source carrying a non-default 'index' (the result of subset_pattern)
+            k = pick_obj(run, lambda o, s: len(set(s.conds)) == len(s.conds) and
+                         [int(v) for v in o.pattern_descriptors['index']] != list(range(o.n_cond)))
+            if k is None:
+                k = pick_obj(run, lambda o, s: len(set(s.conds)) == len(s.conds))
+            if k is None:
+                return True
+            obj, sh = run.pool[k]
+            how = gen.pick(rng, ['getitem', 'iter', 'subset'])
+            i = int(rng.integers(obj.n_rdm))
+            if how == 'getitem':
+                child, rows = obj[i], [sh.rows[i]]
+            elif how == 'iter':
+                child, rows = list(obj)[i], [sh.rows[i]]
+            else:
+                val = obj.rdm_descriptors['ruid'][i]
+                child = obj.subset('ruid', val)
+                rows = [r for r, v in zip(sh.rows, obj.rdm_descriptors['ruid']) if ref._key(v) == ref._key(val)]
+            sig['arg'] = how
+            names = [w.name[c] for c in sh.conds]
+            child.sort_by(reindex=True, name=list(names))
+            run.add(child, Shadow(list(rows), list(sh.conds)))
+            if [int(v) for v in child.pattern_descriptors['index']] != list(range(child.n_cond)):
+                ctx.fail(op, dict(sig, what='reindex'), 'index not reset', hist())
+                return False
+            touched = (len(run.pool) - 1,)
         elif op == 'append':
             k = pick_obj(run)
             obj, sh = run.pool[k]
